@@ -73,7 +73,11 @@ def enumerate_cases(tier, shard=0, nshards=1):
     out.extend([dict(c, mode='cond') for c in out] +
                # ... and with a postfix % in every formula text (=A2*100%+1):
                # the text of a failing formula is part of the report
-               [dict(c, mode='pct') for c in out])
+               [dict(c, mode='pct') for c in out] +
+               # ... and with an ERROR VALUE as the left operand of the first
+               # operator (=XE9+A2+1 with XE9 = 1/0): the references on the
+               # right still belong to the formula
+               [dict(c, mode='errleft') for c in out])
     # long cycles / long prefixes (well inside Python's recursion limit)
     for length, prefix in ((10, 0), (26, 3), (27, 0), (40, 10), (1, 60),
                            (60, 0), (2, 50), (102, 0), (150, 20), (200, 0)):
@@ -500,6 +504,9 @@ def judge(case):
             d[_full(c)] = '=' + '+'.join(
                 (p if p == '1' else p + '*100%')
                 for p in d[_full(c)][1:].split('+'))
+        if case.get('mode') == 'errleft':
+            d[_full(c)] = '=XE9+' + d[_full(c)][1:]
+            d['Sheet1!XE9'] = '=1/0'
         if condmode:
             # =IF(<sum of the references>+1>0,1,2): with positive constants
             # every acyclic cell is 1
@@ -552,6 +559,9 @@ def judge(case):
     elif condmode:
         want = ('N', 1.0)
         res.labels += ('in-if-condition',)
+    elif case.get('mode') == 'errleft':
+        want = ('E', '#DIV/0!')
+        res.labels += ('error-left-operand',)
     else:
         want = ('N', float(ref_value(cells, consts, start)))
     shared = sim_calls > len(set(cells) | set(consts)) + 1
